@@ -4,6 +4,7 @@
 package wh
 
 import (
+	"github.com/transparency-dev/witness/omniwitness"
 	"time"
 	"bytes"
 	"context"
@@ -102,6 +103,8 @@ type Config struct {
 	// Guard: Do runs the update under a 60 s watchdog (for searches on the
 	// single-connection SQL store, where a leaked transaction blocks forever).
 	Guard bool
+	// NoGuard switches the default guard of SQL stores off.
+	NoGuard bool
 	// Wrap optionally wraps the persistence handed to the witness.
 	Wrap func(persistence.LogStatePersistence) persistence.LogStatePersistence
 	// DrvSetup is called on the wrapping SQL driver before the store is
@@ -132,6 +135,8 @@ type Env struct {
 	mirror   map[string][]byte
 	wrapped  persistence.LogStatePersistence
 	known    map[string]witness.LogInfo
+	// ConfigDiff: how the repository's own log map differs from what was configured ("" = not at all).
+	ConfigDiff string
 	// Blocked: a guarded call never returned; the environment is unusable.
 	Blocked bool
 	inGuard bool
@@ -175,6 +180,13 @@ func Signers(u *uni.U, names []string) ([]note.Signer, []note.Verifier) {
 
 // NewEnv builds the witness.
 func NewEnv(u *uni.U, cfg Config) *Env {
+	// SQL stores have one connection: unless the caller interposes on the
+	// store itself (Wrap: the scheduler of C05, the fault engine of C07, which
+	// have their own watchdogs) every call runs guarded, so that a leaked
+	// transaction shows up as a "blocked" outcome instead of a hung check.
+	if cfg.Store != "mem" && cfg.Wrap == nil && !cfg.NoGuard {
+		cfg.Guard = true
+	}
 	e := &Env{U: u, Cfg: cfg, LogByID: map[string]LogCfg{}, X: map[string]any{}}
 	switch {
 	case cfg.Store == "mem":
@@ -203,6 +215,34 @@ func NewEnv(u *uni.U, cfg Config) *Env {
 		}
 		known[id] = witness.LogInfo{SigV: l.Key.Verif, Origin: l.Origin, Hasher: rfc6962.DefaultHasher}
 		e.LogByID[id] = l
+	}
+	// The witness's log map is built the way the binary builds it
+	// (omniwitness.LogConfig.AsLogMap, which goes through the repository's
+	// own key parsing and ID derivation) whenever that is possible (no ID
+	// override, no duplicate origins); it must describe exactly the logs that
+	// were configured - ConfigDiff says how it does not.
+	if len(cfg.IDOverride) == 0 {
+		var lc omniwitness.LogConfig
+		for _, l := range cfg.Logs {
+			lc.Logs = append(lc.Logs, omniwitness.LogInfo{Origin: l.Origin, PublicKey: l.Key.VKey, URL: "http://unused.example/"})
+		}
+		if m, err := lc.AsLogMap(); err == nil {
+			for id, want := range known {
+				got, ok := m[id]
+				switch {
+				case !ok:
+					e.ConfigDiff = fmt.Sprintf("AsLogMap has no entry for ID %s (origin %q)", id, want.Origin)
+				case got.Origin != want.Origin:
+					e.ConfigDiff = fmt.Sprintf("AsLogMap gives origin %q for the log configured with origin %q", got.Origin, want.Origin)
+				case got.SigV.Name() != want.SigV.Name() || got.SigV.KeyHash() != want.SigV.KeyHash():
+					e.ConfigDiff = fmt.Sprintf("AsLogMap gives verifier %s+%08x for origin %q configured with key %s+%08x", got.SigV.Name(), got.SigV.KeyHash(), want.Origin, want.SigV.Name(), want.SigV.KeyHash())
+				}
+			}
+			if len(m) != len(known) {
+				e.ConfigDiff = fmt.Sprintf("AsLogMap has %d entries for %d configured logs", len(m), len(known))
+			}
+			known = m
+		}
 	}
 	e.Sigs, e.WitVerifs = Signers(u, cfg.Signers)
 	var p persistence.LogStatePersistence = e.Raw
